@@ -111,6 +111,72 @@ func verifC20DictInMem()   { verifDictionary(2, 2, 1, false) }
 // the empty key and the empty probe are part of the space
 func verifC20DictEmptyKey() { verifDictionary(2, 1, 0, true) }
 
+
+// Seek: positions the iterator on the smallest key >= probe (lower bound of a sorted map) and
+// reports whether that key equals the probe; from there Next walks the remaining keys in order.
+// When no key is >= probe the iterator's state is not specified by the package (it moves to the
+// last key) and nothing is asserted.
+func verifSeek(maxKeys, maxKeyLen int) {
+	n := 1 + verifChoose("nkeys", maxKeys)
+	keys := make([][]byte, n)
+	vals := make([]uint32, n)
+	for i := 0; i < n; i++ {
+		keys[i] = verifKey("key", maxKeyLen, 1)
+		vals[i] = verifNondetUint32("val")
+		if i > 0 {
+			verifAssume(verifLess(keys[i-1], keys[i]))
+		}
+	}
+	b := NewBuilder()
+	b.Build(keys, vals)
+	tr := b.Trie()
+	probe := verifKey("probe", maxKeyLen+1, 1)
+	lb := n
+	for i := n - 1; i >= 0; i-- {
+		if !verifLess(keys[i], probe) {
+			lb = i
+		}
+	}
+	it := tr.NewIterator()
+	found := it.Seek(probe)
+	if lb == n {
+		verifReach("end")
+		return
+	}
+	verifAssert(it.Valid(), "seek: a key >= probe exists, the iterator is valid")
+	if !it.Valid() {
+		return
+	}
+	// where did it land
+	at := -1
+	for i := 0; i < n; i++ {
+		if verifEq(it.Key(), keys[i]) {
+			at = i
+		}
+	}
+	verifAssert(at >= 0 && it.Value() == vals[at], "seek lands on a key of the dictionary and shows its value")
+	if at < 0 {
+		return
+	}
+	// never beyond the lower bound (no key >= probe is skipped), at most one key before it
+	verifAssert(at <= lb && at >= lb-1, "seek lands on the smallest key >= probe or on its predecessor")
+	verifAssert(!found || verifEq(keys[at], probe), "seek reports an exact match only for the probe itself")
+	for i := at + 1; i < n; i++ {
+		it.Next()
+		verifAssert(it.Valid() && verifEq(it.Key(), keys[i]) && it.Value() == vals[i], "seek: Next continues in key order")
+	}
+	it.Next()
+	verifAssert(!it.Valid(), "seek: iteration ends after the last key")
+	verifReach("end")
+	// the sorted-map contract proper comes last (known findings C20-seek-not-lower-bound and
+	// C20-seek-exact-flag, see known_findings.json), so that it does not cut the checks above short
+	verifAssert(at == lb, "seek lands exactly on the smallest key >= probe")
+	verifAssert(found == verifEq(keys[lb], probe), "seek reports an exact match exactly when the probe is a key")
+}
+
+func verifC20Seek2() { verifSeek(2, 2) }
+func verifC20Seek3() { verifSeek(3, 2) }
+
 func verifC20Reach() {
 	k1 := verifSymBytes("key", 2)
 	k2 := verifSymBytes("key", 1)
